@@ -291,6 +291,35 @@ def replayer(v):
         if kind == 'array': lines.append('n_%s = array_length ${%s}' % (var, var))
         if kind == 'set': lines.append('n_%s = set_size ${%s}' % (var, var))
         if kind == 'map': lines.append('n_%s = map_size ${%s}' % (var, var))
+    # expected contents after the command (python model of the reference collections), dumped natively element by element
+    exp_content = {h: (list(c) if k_ != 'map' else dict(c)) for h, (k_, c) in tab.items()}
+    cmd_ = v['cmd']; tk_ = tab.get(harg, [None])[0]
+    if tk_ is not None and cmd_.split('_')[0] == tk_:
+        c_ = exp_content[harg]
+        try:
+            if cmd_ == 'array_push': c_.extend(a[1:])
+            elif cmd_ == 'array_pop' and c_: c_.pop()
+            elif cmd_ == 'array_set' and a[1].isdigit() and int(a[1]) < len(c_): c_[int(a[1])] = a[2]
+            elif cmd_ == 'array_remove' and a[1].isdigit() and int(a[1]) < len(c_): del c_[int(a[1])]
+            elif cmd_ in ('array_clear', 'set_clear'): del c_[:]
+            elif cmd_ == 'map_clear': c_.clear()
+            elif cmd_ == 'map_put': c_[a[1]] = a[2]
+            elif cmd_ == 'map_remove': c_.pop(a[1], None)
+            elif cmd_ == 'set_put':
+                for x_ in a[1:]:
+                    if x_ not in c_: c_.append(x_)
+            elif cmd_ == 'set_remove' and a[1] in c_: c_.remove(a[1])
+        except Exception: pass
+    dumps = []
+    if cmd_ not in ('release', 'release -r'):
+        for h, var in names.items():
+            kind = tab[h][0]; c_ = exp_content[h]
+            if kind == 'array':
+                for i_, x_ in enumerate(c_): lines.append('c_%s_%d = array_get ${%s} %d' % (var, i_, var, i_)); dumps.append(('c_%s_%d' % (var, i_), x_, '%s[%d]' % (h, i_)))
+            elif kind == 'map':
+                for i_, (k_, x_) in enumerate(c_.items()): lines.append('c_%s_%d = map_get ${%s} "%s"' % (var, i_, var, esc(k_))); dumps.append(('c_%s_%d' % (var, i_), x_, '%s[%r]' % (h, k_)))
+            elif kind == 'set':
+                for i_, x_ in enumerate(c_): lines.append('c_%s_%d = set_contains ${%s} %s' % (var, i_, var, ref(x_))); dumps.append(('c_%s_%d' % (var, i_), True, '%r in %s' % (x_, h)))
     out = H.replay(dict(mode='sdk', script='\n'.join(lines))); v['native'] = out; v['script'] = lines
     if out.get('panic'): return (True, 'native panic')
     if not out.get('ok'): return (None, 'replay script failed: %r' % (out.get('error'),))
@@ -328,7 +357,13 @@ def replayer(v):
         exp_kind = tuple('true' if (alive and kind == k) else 'false' for k in ('array', 'map', 'set'))
         if got_kind != exp_kind: problems.append('%s kind flags %r expected %r' % (h, got_kind, exp_kind))
         if alive and vars_.get('n_%s' % var) != str(exp_sizes[h]): problems.append('%s size %r expected %d' % (h, vars_.get('n_%s' % var), exp_sizes[h]))
-    return (bool(problems), '; '.join(problems) or 'native agrees with the reference on kinds and sizes')
+    if not problems:
+        for name_, want_, what_ in dumps:
+            got_ = vars_.get(name_)
+            if want_ is True: okk = got_ == 'true'
+            else: okk = got_ == (vars_.get(names[want_]) if want_ in names else want_)
+            if not okk: problems.append('%s: native %r, reference %r' % (what_, got_, want_))
+    return (bool(problems), '; '.join(problems) or 'native agrees with the reference on kinds, sizes and contents')
 
 
 def esc(s): return s.replace('\\', '\\\\').replace('"', '\\"').replace('\n', '\\n').replace('\r', '\\r').replace('\t', '\\t')
